@@ -180,6 +180,7 @@ def minimise(t, seed, H, kind):
 
 
 def shard(s, ns, tier, seed):
+    irsem.SEGAWARE = True
     import miasmx.expression.expression_helper as H
     part = core.Part()
     idx = 0
@@ -204,6 +205,7 @@ def shard(s, ns, tier, seed):
 
 def run(tier, seed):
     t0 = time.time()
+    irsem.SEGAWARE = True
     irsem.selfcheck()
     part = core.run_sharded(shard, (tier, seed), nshards=core.NPROC * 4)
     rule = ('case = one well-typed expression tree over identifiers a,b of base width w; families: E1 = every operator over '
@@ -217,11 +219,12 @@ def run(tier, seed):
     return core.finish('C05', tier, seed, t0, part, rule, exhaustive=True,
                        space={'families': [list(f) for f in families(tier)]},
                        assumptions=['irsem (mc/irsem.py) is the reference semantics; cross-checked against big-int arithmetic at start-up',
-                                    'memory is flat: a segment on ExprMem is a tag (lenient reading)',
+                                    'a segment selector on ExprMem selects a different address space: dropping or changing it changes the cell',
                                     'valuations are exhaustive only at width 8 and 1'])
 
 
 def replay(w):
+    irsem.SEGAWARE = True
     def tup(x):
         return tuple(tup(i) for i in x) if isinstance(x, list) else x
     t = tup(w['tree'])
